@@ -14,9 +14,12 @@ Tie
              fuel): the yielded paths verbatim and the way the generator ends, on every distinct call the conversions of the
              run made (recorder around the module-level function), on every component with <= 4/5 atoms x every labeling,
              and on sampled larger / ill-formed components; Props §6 proves termination (measure) for all inputs and
-             soundness (every yield is a perfect matching of the non-double_bonded atoms, every bond assigned once) for all
-             prepared components without ambiguous atoms; soundness with ambiguous atoms, completeness and no-duplicates
-             are stated in Lean and evaluated against an independent enumeration of all matchings.
+             soundness (every yield is a perfect matching of the non-double_bonded atoms, every bond assigned once),
+             completeness (a finished generator yields every Kekulé form; InvalidAromaticRing only if none exists) and
+             no-duplicates for all prepared components without ambiguous atoms; with ambiguous atoms the three statements
+             are kept as Lean `def`s and evaluated against an independent enumeration of all matchings;
+       kekf  the whole of kekule() as the composition fix -> prepare -> component split -> search -> assignment ->
+             hydrogens (Model/C05Full.lean): returned value and molecule left behind, for every aromatic input.
   R  the implementation's actual outputs are sent to Lean checkers whose soundness is proved in Props/C05.lean:
        kekn  `checkKekule (normalise a) (kekule a)` ∧ `checkMatching` (new double bonds are a perfect matching of the
              acceptor atoms and avoid the fixed-single atoms) for kekule() and for every enumerated form;
@@ -35,8 +38,9 @@ from ..gen import gen_aromrules
 LEVEL = 'translation_validation'
 LEVEL_TEXT = ('The bond-assignment search of kekule() (many correct answers: any Kekulé structure) is modelled exactly '
               '(Model/C05Search.lean, output equality with the real generator on every call of the run and on all small '
-              'components) with termination proved for all inputs and soundness proved for all prepared components without '
-              'ambiguous atoms; independently of that model, and because thiele() has a numbering-sensitive tautomer step, '
+              'components) with termination proved for all inputs and soundness, completeness (InvalidAromaticRing only if '
+              'no Kekulé form exists) and absence of duplicate forms proved for all prepared components without ambiguous '
+              'atoms; the whole of kekule() is tied as the composition of the models; independently of that model, and because thiele() has a numbering-sensitive tautomer step, '
               'each actual output is certified run by run by Lean checkers '
               '(`checkKekule`, `checkMatching`, `checkThiele`) whose soundness w.r.t. the declarative relations of '
               'Spec/Kekule.lean (same skeleton, aromatic bonds localised to 1/2, nothing else changed, hydrogens preserved and '
@@ -49,11 +53,16 @@ LEVEL_TEXT = ('The bond-assignment search of kekule() (many correct answers: any
               'of every repair rule lifted over any match list). Stability / idempotence / numbering independence are '
               'validated on the real objects. Translation validation is the honest level: the decisive step is a proved '
               'checker applied to the code\'s outputs.')
-LEVEL_NOTE = ('Lean kernel; hand-written models Model/C05Kekule.lean validated by correspondence, not derived from the Python '
-              'text; Spec/Kekule.lean written from the property text; C04 valence model (Model/Valence.lean over the regenerated '
+LEVEL_NOTE = ('Lean kernel; hand-written models Model/C05Kekule.lean, Model/C05Search.lean (_kekule_component), '
+              'Model/C05Full.lean (kekule() as composition), Model/C05Thiele.lean validated by correspondence, not derived from '
+              'the Python text; of the sets handed to the search only membership, emptiness and the first element of '
+              'double_bonded are observed (CPython set iteration order and which start atom set.pop() delivers arrive as '
+              'recorded inputs, the component split itself is checked against the model); soundness / completeness / '
+              'no-duplicates of the search are theorems for components without ambiguous ("pyrrole or pyridine") atoms and '
+              'evaluated against an independent enumeration otherwise; Spec/Kekule.lean written from the property text; C04 valence model (Model/Valence.lean over the regenerated '
               'periodic table) as the meaning of "no valence error"; `sssr` (C06) and `get_mapping` (C07) outputs are taken '
               'as inputs; wire encoder; gen_aromrules translator; CachedMethods shim.')
-TECHNIQUE = 'Lean 4 proved checkers on the implementation\'s Kekulé / aromatic outputs + exact functional models of the classification, ring preparation, rule patching and the backtracking search (well-founded recursion, invariant proof of soundness), differential line protocol'
+TECHNIQUE = 'Lean 4 proved checkers on the implementation\'s Kekulé / aromatic outputs + exact functional models of the classification, ring preparation, rule patching and the backtracking search (well-founded recursion; invariant proofs of soundness, completeness, no duplicates), differential line protocol'
 RULE = ('one case = one request line: a molecule in a concrete numbering / dict order (wire ints) together with the '
         'implementation\'s actual output for one conversion (kekule, every enumerated Kekulé form (<= 48), thiele with and without '
         'tautomer fixing, second applications, the same after a random renumbering), or one row of a decision table. Molecules: '
@@ -1981,6 +1990,8 @@ KS_FIXED = [
     ks_key([(3, [14, 5]), (14, [10, 12, 3]), (5, [3, 12]), (10, [14, 17, 20]), (12, [14, 5, 4]), (17, [20, 10, 4]),
             (20, [17, 10, 4]), (4, [12, 17, 20])], [12], [4, 5], 1),
     ks_key([(6, [7, 17]), (7, [19, 6, 17]), (17, [7, 6]), (19, [1, 11, 7]), (1, [19, 11]), (11, [1, 19])], [19, 6], [], 1),
+    # (3) the four-ring evaluated inside Lean (Proofs/C05SearchExample.lean: `square_first_form`)
+    ks_key([(1, [2, 4]), (2, [1, 3]), (3, [2, 4]), (4, [3, 1])], [], [], 7),
 ]
 
 
